@@ -251,6 +251,19 @@ def run_contracts(reg, contracts, lemmas, want_models=True):
     for j, r in zip(idx2, solve.discharge(jobs2)):
         r["z3_s"] = r.get("z3_s", 0) + res[j].get("z3_s", 0)
         res[j] = r
+    # quiet retry: obligations still open (time-outs under load) get three times the budget, four at a time
+    full_jobs = dict(zip(idx2, jobs2))
+    cover_idx = {j for (_o, vc, j) in meta if j is not None and vc.kind == "cover"}
+    again = [j for j in range(len(res)) if res[j]["result"] == "unknown" and j not in cover_idx]
+    if again and len(again) <= 24:
+        jobs3 = []
+        for j in again:
+            smt2, _t, rb, _c = full_jobs.get(j, jobs[j])
+            jobs3.append((smt2, 3 * Z3_MS, rb, 2 * CVC5_MS))
+        for j, r in zip(again, solve.discharge(jobs3, procs=4)):
+            r["z3_s"] = r.get("z3_s", 0) + res[j].get("z3_s", 0)
+            r["retried"] = True
+            res[j] = r
     wall = time.time() - t0
     return meta, res, functions, undecided_fn, wall
 
